@@ -173,7 +173,7 @@ def check(run):
     extra_cases = [("module.colvarsTrajFrequency", "2305843009213693952"), ("colvaroff1.corrFuncLength", "-1"),
                    ("colvar.corrFuncLength", "2147483647"), ("colvarrof0.corrFuncStride", "2147483647"),
                    ("colvar.corrFuncOffset", "-1"), ("meta.gridsUpdateFrequency", "0"), ("meta.newHillFrequency", "0"),
-                   ("histrestr.upperBoundary", "2147483647"), ("histrestr.width", "1e-300"), ("opes.colvarsRestartFrequency", "0")]
+                   ("histrestr.upperBoundary", "2147483647"), ("histrestr.upperBoundary", "2000000000"), ("histrestr.width", "1e-300"), ("opes.colvarsRestartFrequency", "0")]
     cases = []
     for e in T.ENTRIES:
         for v in values:
@@ -334,6 +334,7 @@ def gen_grid_cases(r, n):
         ("zero-width", [("0", "4", "0")], False),
         ("negative-width", [("0", "4", "-0.5")], False),
         ("reversed", [("4", "0", "0.5")], False),
+        ("zero-bins", [("2", "2", "0.5")], False),
         ("2^31-bins", [("0", "2147483648", "1")], False),
         ("2^31-1-bins", [("0", "2147483647", "1")], False),
         ("1e9-bins", [("0", "1000000000", "1")], False),
